@@ -3,6 +3,7 @@
 From Coq Require Import ZArith NArith List Bool Reals Floats String. Import ListNotations.
 From PV Require Import Num NumR model.Tables model.Spec model.Geom model.Optimiser model.OptSpec model.Pipeline model.Svg model.Json gen.GenTables gen.GenSchema proofs.OptStruct proofs.OptLoop proofs.LatticeFacts proofs.TablesFacts proofs.PipelineFacts proofs.OutputFacts.
 From PV Require Import gen.GenFns proofs.SourceFacts.
+From PV Require Import gen.GenFns proofs.SvgSource.
 
 Theorem C11_json_roundtrip :
   forall s : jstate, decode (encode s) = Some s.
@@ -55,4 +56,18 @@ Theorem C11_source_translated :
   gen_fns_problem = ""%string.
 Proof. exact source_translated. Qed.
 Print Assumptions C11_source_translated.
+
+
+Theorem S_svg_uses_are_source :
+  forall (NN : Num) (st : pstate NN) (lst : ljstate NN), gen_svg_uses NN st = svg_elements NN
+    (p_cell NN st) (relative_positions NN st) /\ gen_lj_svg_uses NN lst = svg_elements NN
+    (l_cell NN lst) (lj_relative NN lst).
+Proof. exact svg_uses_are_source. Qed.
+Print Assumptions S_svg_uses_are_source.
+
+Theorem S_svg_elements_placements :
+  forall (NN : Num) (c : cell NN) (rel : list (tf NN)), map fst (svg_elements NN c rel) =
+    svg_cell_uses NN c ++ svg_mol_uses NN c rel.
+Proof. exact svg_elements_placements. Qed.
+Print Assumptions S_svg_elements_placements.
 
